@@ -190,7 +190,13 @@ class Ctx:
             return None
         if hasattr(r, 'cap'):
             return r.cap(d)
-        return r.get_available_units(DT(d.year, d.month, d.day), None)
+        # ask the calendar itself, not the Resource wrapper: capacity must not come through anything the
+        # scheduler may have cached
+        cal = getattr(r, 'calendar', None)
+        if cal is None:
+            return r.get_available_units(DT(d.year, d.month, d.day), None)
+        v = cal.get_available_units(DT(d.year, d.month, d.day))
+        return 0 if v is None else v
 
     def T(self, n):
         return self.view['tasks'][n]
@@ -366,6 +372,10 @@ def check_c04(c):
         dates = [d for _, _, d, _ in rows]
         if len(set(dates)) != len(dates):
             return V('C04', 'twice-a-day', f'{n} has two rows on one day', c)
+        # remaining work of float-noise size (0.1 + 0.2 - 0.3) moves a date by less than the microsecond
+        # resolution of datetime: the reservation is still judged, the date agreement is not
+        if 0 < want < 1e-9:
+            continue
         for d in dates:
             if d.date() < t['start'].date() or not (d < t['end']):
                 return V('C04', 'row-outside-dates', f'{n}: row on {d.date()} outside [{t["start"]}, {t["end"]})', c)
@@ -381,7 +391,7 @@ def check_c04(c):
                     return V('C04', 'start-not-on-first-day', f'{n}: start {t["start"]}, first reserved day {first.date()}', c)
                 if not (last < t['end'] <= last + H24 + MS):
                     return V('C04', 'end-not-in-last-day', f'{n}: end {t["end"]}, last reserved day {last.date()}', c)
-        else:
+        elif not kw.get('start'):
             if not (first - MS <= t['start'] < first + H24):
                 return V('C04', 'start-not-in-first-day', f'{n}: start {t["start"]}, first reserved day {first.date()}', c)
     return None
@@ -394,7 +404,9 @@ def check_c07(c):
     for n in st.order_listed:
         t = c.T(n)
         if t['start'] is None or t['end'] is None:
-            continue  # C06 matter
+            if not st.is_leaf(n) and any(c.T(x)['start'] is not None for x in st.children[n]):
+                return V('C07', 'summary-start', f'{n}: summary has start {t["start"]} / end {t["end"]} although its children have dates', c)
+            continue  # no dates at all: C06 matter
         fixed_end_only = st.is_leaf(n) and c.kw(n).get('end') and not c.kw(n).get('start')
         if t['start'] > t['end'] and not fixed_end_only:
             return V('C07', 'start-after-end', f'{n}: start {t["start"]} > end {t["end"]}', c)
